@@ -60,7 +60,13 @@ class _OldLift(ast.NodeTransformer):
             name = f'__old_{len(self.olds)}'
             self.olds.append((name, node.args[0]))
             return ast.copy_location(ast.Name(name, ast.Load()), node)
-        return self.generic_visit(node)
+        node = self.generic_visit(node)
+        # logical connectives are lazy, as in the verifier's logic: implies(a, b) must not evaluate b when a is false
+        if isinstance(node.func, ast.Name) and node.func.id == 'implies' and len(node.args) == 2:
+            return ast.copy_location(ast.BoolOp(ast.Or(), [ast.UnaryOp(ast.Not(), node.args[0]), node.args[1]]), node)
+        if isinstance(node.func, ast.Name) and node.func.id == 'ite' and len(node.args) == 3:
+            return ast.copy_location(ast.IfExp(node.args[0], node.args[1], node.args[2]), node)
+        return node
 
 
 def eval_clause(text, env, old_env=None, extra=None):
@@ -120,3 +126,42 @@ def check_call(contract, fn, env, extra=None, call=None):
         if not ok:
             return False, f'postcondition `{c["text"]}` false; result={result!r}'
     return True, 'ok'
+
+
+def real_callable(target):
+    """'tenpy/x/y.py::Class.method' -> the real (unbound) function object of the tree that the checker verifies"""
+    import importlib
+    relpath, qual = target.split('::')
+    mod = importlib.import_module(relpath[:-3].replace('/', '.'))
+    obj = mod
+    for part in qual.split('.'):
+        obj = getattr(obj, part)
+    return obj
+
+
+def crosscheck(contract, n, seed=0):
+    """CPython cross-check of a contract that the verifier discharged: draw n real inputs with the contract's sampler, run the
+    real function, evaluate the *same clause text*.  -> (evaluated, skipped_precondition, [failures])"""
+    import random
+    rng = random.Random(seed)
+    fn = real_callable(contract.target)
+    done = skipped = 0
+    failures = []
+    import warnings
+    warnings.simplefilter('ignore')
+    for _ in range(n):
+        env = contract.sampler(rng)
+        import inspect
+        try:
+            names = set(inspect.signature(fn).parameters)
+        except (TypeError, ValueError):
+            names = set(env)
+        # ghost parameters of the contract (witness arrays ...) take part in the clauses but are not passed to the function
+        ok, detail = check_call(contract, None, env, call=lambda e: fn(**{k: v for k, v in e.items() if k in names}))
+        if ok is None:
+            skipped += 1
+            continue
+        done += 1
+        if not ok and len(failures) < 3:
+            failures.append({'input': {k: repr(v)[:200] for k, v in env.items()}, 'observed': detail})
+    return done, skipped, failures
